@@ -17,6 +17,8 @@ fn check_round_vs_std<F: FloatT>(n: usize, seed: u64) -> usize {
         gen::grammar_text(rx, b'.', b'e'),
         gen::fastpath_text(k, rx, b'.', b'e'),
         gen::range_edge_text(k, rx, b'.', b'e'),
+        gen::beyond_range_text(k, rx, b'.', b'e'),
+        gen::limb_aligned_text(k, rx, b'.', b'e'),
     ];
     let cases = sample_strategy(&strat, seed, n);
     let mut bad = 0;
